@@ -185,6 +185,9 @@ Qed.
 Theorem find_order_independent sy st fl l l' : Permutation l l' -> find_names sy st fl l = find_names sy st fl l'.
 Proof. intros P. unfold find_names. apply isort_perm. apply filter_perm. exact P. Qed.
 
+Theorem sorted_keys_order_independent l l' : Permutation l l' -> sorted_keys l = sorted_keys l'.
+Proof. intros P. unfold sorted_keys. apply isort_perm. exact P. Qed.
+
 (* ---- parser.init: inverting a map whose values are pairwise distinct *)
 Theorem invert_order_independent m l l' : Permutation l l' -> NoDup (map snd l) -> feq (invert m l) (invert m l').
 Proof.
